@@ -18,7 +18,7 @@ M3 = {"m1": (("s1", "s2"), False), "m2": (("s3",), False), "m3": (("s1", "s3"), 
 
 def quick():
     c = []
-    T2, T3 = (0.0, 1.0), (0.0, 1.0, 2.5)
+    T2, T3 = (0.0, 1.0, 3.0), (0.0, 1.0, 2.5, 4.0)
     # single dataset
     c.append(Cfg("one_unlinked", (DS("ds1", T3, (0.0, 1.0)),), groups={"default": (False, VP)}))
     c.append(Cfg("one_auto_scale", (DS("ds1", T2, (0.0, 1.0, 2.0), scale=True),)))
@@ -63,10 +63,10 @@ def quick():
     c.append(Cfg("relation_zero_linked", (DS("ds1", T2, (0.0, 1.0)), DS("ds2", T2, (1.0, 2.0), scale=True)), megacomplexes={"m1": (("s1", "s2", "s3"), True)}, relations=(("s1", "s2", None),), constraints=(("zero", "s3", [(-1.0, 0.5), (1.5, 5.0)]),), groups={"default": (True, VP)}))
     c.append(Cfg("relation_source_zero", (DS("ds1", T2, (0.0, 1.0, 2.0)),), megacomplexes={"m1": (("s1", "s2", "s3"), False)}, relations=(("s1", "s2", (0.5, 5.0)),), constraints=(("zero", "s1", (1.5, 2.5)),), groups={"default": (False, VP)}))
     c.append(Cfg("relation_source_zero_linked", (DS("ds1", T2, (0.0, 1.0, 2.0)), DS("ds2", T2, (2.0, 3.0))), megacomplexes={"m1": (("s1", "s2", "s3"), True)}, relations=(("s1", "s2", None),), constraints=(("only", "s1", (0.0, 1.0)),), groups={"default": (True, VP)}))
-    c.append(Cfg("zero_symbolic_interval", (DS("ds1", T2, (0.0, 1.0)),), megacomplexes=M1D, constraints=(("zero", "s1", "sym"),), groups={"default": (False, VP)}))
-    c.append(Cfg("relation_symbolic_interval_linked", (DS("ds1", T2, (0.0, 1.0)),), megacomplexes=M1D, relations=(("s1", "s2", "sym"),), groups={"default": (True, VP)}))
+    c.append(Cfg("zero_symbolic_interval", (DS("ds1", T3, (0.0, 1.0)),), megacomplexes=M1D, constraints=(("zero", "s1", "sym"),), groups={"default": (False, VP)}))
+    c.append(Cfg("relation_symbolic_interval_linked", (DS("ds1", T3, (0.0, 1.0)),), megacomplexes=M1D, relations=(("s1", "s2", "sym"),), groups={"default": (True, VP)}))
     # penalties
-    c.append(Cfg("penalty_unlinked", (DS("ds1", T2, (0.0, 1.0, 2.0)),), megacomplexes=M1D, penalties=(("s1", [(0.0, 1.0)], "s2", [(1.0, INF)]),), groups={"default": (False, VP)}))
+    c.append(Cfg("penalty_unlinked", (DS("ds1", T3, (0.0, 1.0, 2.0)),), megacomplexes=M1D, penalties=(("s1", [(0.0, 1.0)], "s2", [(1.0, INF)]),), groups={"default": (False, VP)}))
     c.append(Cfg("penalty_linked_two", (DS("ds1", T2, (0.0, 1.0)), DS("ds2", T2, (1.0, 2.0), scale=True)), penalties=(("s1", [(-INF, INF)], "s2", [(2.0, 0.0)]),), groups={"default": (True, VP)}))
     c.append(Cfg("penalty_unlinked_two_datasets", (DS("ds1", T2, (0.0, 1.0)), DS("ds2", T2, (1.0, 2.0))), penalties=(("s1", [(0.0, 2.0)], "s2", [(0.0, 2.0)]),), groups={"default": (False, VP)}))
     # model weights
@@ -83,14 +83,14 @@ def quick():
     )
     # full models
     c.append(Cfg("full_model", (DS("ds1", T2, (0.0, 1.0, 2.0), global_megacomplexes=("gm1",)),), global_megacomplexes={"gm1": ("g1", "g2")}))
-    c.append(Cfg("full_model_dep_weight", (DS("ds1", T2, (0.0, 1.0), global_megacomplexes=("gm1",), weight=True, mc_scales=True, order="gm"),), megacomplexes=M1D, global_megacomplexes={"gm1": ("g1",)}))
+    c.append(Cfg("full_model_dep_weight", (DS("ds1", T3, (0.0, 1.0, 2.0, 3.0), global_megacomplexes=("gm1",), weight=True, mc_scales=True, order="gm"),), megacomplexes=M1D, global_megacomplexes={"gm1": ("g1",)}))
     c.append(Cfg("full_model_and_plain", (DS("ds1", T2, (0.0, 1.0), global_megacomplexes=("gm1", "gm2")), DS("ds2", T3, (0.0, 1.0), scale=True)), global_megacomplexes={"gm1": ("g1",), "gm2": ("g1", "g2")}))
     return c
 
 
 def thorough():
     c = quick()
-    T2, T3 = (0.0, 1.0), (0.0, 0.5, 2.0)
+    T2, T3 = (0.0, 1.0, 3.0), (0.0, 0.5, 2.0, 4.0)
     axes = [(0.0, 1.0), (1.0, 2.0), (0.0, 2.0), (0.0, 1.0, 2.0), (2.0,), (1.0, 3.0)]
     k = 0
     for a1, a2 in itertools.product(axes, repeat=2):
